@@ -85,6 +85,7 @@ type Interp struct {
 	inputs      []*Term
 	inputMeta   map[string]string
 	recoverable **goPanic
+	fixed       map[string]*Term  // inputs fixed by enumeration (Choose): name -> value
 	wrapped     map[*Object]Value // error wrapping side table
 	gzipUnder   map[*Object]Value
 	threads     []*Thread
